@@ -439,6 +439,8 @@ func checkUePolShapes(w *World, r *Report) {
 	r.Expect("walk.uepol", 9)
 }
 
+const symOctet = ^uint64(0) // in a message image: an octet that takes every value
+
 // checkUePolMessages (msg.reencode): the three messages of the UE policy delivery service decoded
 // from their shortest wire form (symbolic PTI) and encoded again give the octets that were decoded:
 // the header octets (PTI, message type) reach the body that the encoder writes them from.
@@ -456,6 +458,8 @@ func checkUePolMessages(w *World, r *Report) {
 		tail []uint64
 	}{
 		{"MANAGE UE POLICY COMMAND", 1, []uint64{0x01, 0, 0}},
+		// with the optional UE policy network classmark (identifier, length, NSSUI, spare: all values)
+		{"MANAGE UE POLICY COMMAND with network classmark", 1, []uint64{0x01, 0, 0, symOctet, symOctet, symOctet, symOctet}},
 		{"MANAGE UE POLICY COMPLETE", 2, nil},
 		{"MANAGE UE POLICY REJECT", 3, []uint64{0x02, 0, 0}},
 	} {
@@ -469,7 +473,11 @@ func checkUePolMessages(w *World, r *Report) {
 		bo := it.NewObj("in", false)
 		st.mem[bo] = map[string]Value{}
 		in := []BV{it.SrcBV("pti", 8), it.constBV(m.typ, 8)}
-		for _, t := range m.tail {
+		for i, t := range m.tail {
+			if t == symOctet {
+				in = append(in, it.SrcBV(fmt.Sprintf("in[%d]", 2+i), 8))
+				continue
+			}
 			in = append(in, it.constBV(t, 8))
 		}
 		for i, b := range in {
@@ -517,5 +525,5 @@ func checkUePolMessages(w *World, r *Report) {
 			r.Fail("msg.reencode", fname, m.name, fd.Pos(), why, nil)
 		}
 	}
-	r.Expect("msg.reencode", 3)
+	r.Expect("msg.reencode", 4)
 }
